@@ -4,16 +4,17 @@ From V.C08 Require Import Sql Model Spec.
 From V.Gen Require Import C08SqlPred.
 Local Open Scope Z_scope.
 
-Definition oracle_entry := (list (pool * Z) * change_result)%type.
+(** one compute_balance call: the anchor it was given, the offered inputs, the result *)
+Definition oracle_entry := (Z * list (pool * Z) * change_result)%type.
 
 Inductive case :=
 (** InputSource::select_spendable_notes for one pool; observed: sorted note ids *)
 | CSelect (db : list note_row) (e : env) (acct : Z) (p : pool) (tv : tvalue) (pol : policy)
           (exclude : list (pool * Z)) (lf : lockfilter) (obs : outcome (list Z) sel_err)
 (** propose_transfer; [oracle] is the log of the change strategy's compute_balance calls *)
-| CPropose (db : list note_row) (e : env) (acct : Z) (pay : Z) (orchard_out : bool) (permitted : list pool)
-           (pol : policy) (lp : lip) (lock : option (Z * Z)) (oracle : list oracle_entry)
-           (obs : outcome (list step) perr)
+| CPropose (db : list note_row) (e : env) (acct : Z) (pay : Z) (single_payment orchard_out : bool)
+           (permitted : list pool) (pol : policy) (lp : lip) (lock : option (Z * Z)) (canon : option canon_in)
+           (oracle : list oracle_entry) (obs : outcome (list step) perr)
 (** OutputLockStore::lock_outputs; [post] is the row dump afterwards *)
 | CLock (db : list note_row) (tip : option Z) (refs : list (pool * Z)) (owner expiry : Z)
         (obs : outcome Z perr) (post : list note_row).
@@ -35,14 +36,11 @@ Definition sort_refs (l : list (pool * Z)) : list (pool * Z) := fold_right inser
 
 Definition refs_eqb (a b : list (pool * Z)) : bool := list_eqb ref_eqb a b.
 
-Definition oracle_fn (o : list oracle_entry) (inputs : list note_row) : change_result :=
-  match find (fun en => refs_eqb (fst en) (sort_refs (refs_of inputs))) o with
+Definition oracle_fn (o : list oracle_entry) (anchor : Z) (inputs : list note_row) : change_result :=
+  match find (fun en => (fst (fst en) =? anchor) && refs_eqb (snd (fst en)) (sort_refs (refs_of inputs))) o with
   | Some en => snd en
   | None => OErr
   end.
-
-Definition oracle_hit (o : list oracle_entry) (inputs : list note_row) : bool :=
-  existsb (fun en => refs_eqb (fst en) (sort_refs (refs_of inputs))) o.
 
 Definition spender_eqb (a b : spender) : bool :=
   option_eqb Z.eqb (sp_mined a) (sp_mined b) && option_eqb Z.eqb (sp_expiry a) (sp_expiry b)
@@ -58,9 +56,14 @@ Definition row_eqb (a b : note_row) : bool :=
   && Bool.eqb (r_shtrust a) (r_shtrust b) && option_eqb Z.eqb (r_lock a) (r_lock b)
   && option_eqb Z.eqb (r_owner a) (r_owner b) && list_eqb spender_eqb (r_spenders a) (r_spenders b).
 
+Definition cpool_eqb (a b : cpool) : bool :=
+  match a, b with CP p, CP q => pool_eqb p q | CT, CT => true | _, _ => false end.
+
 Definition step_eqb (a b : step) : bool :=
   refs_eqb (sort_refs (s_inputs a)) (sort_refs (s_inputs b)) && (s_in_value a =? s_in_value b)
-  && (s_tin a =? s_tin b) && (s_pay a =? s_pay b) && (s_change a =? s_change b) && (s_fee a =? s_fee b).
+  && (s_tin a =? s_tin b) && (s_pay a =? s_pay b)
+  && list_eqb (fun x y => cpool_eqb (fst x) (fst y) && (snd x =? snd y)) (s_changes a) (s_changes b)
+  && (s_fee a =? s_fee b) && option_eqb Z.eqb (s_anchor a) (s_anchor b).
 
 Definition sel_err_eqb (a b : sel_err) : bool :=
   match a, b with EIneligible, EIneligible | ESelOther, ESelOther => true | _, _ => false end.
@@ -76,9 +79,10 @@ Definition run_case (c : case) : bool :=
         (match select_notes db e acct p tv pol exclude lf with
          | Ok l => Ok (sort_z (map r_id l)) | Err x => Err x | Panic => Panic end)
         obs
-  | CPropose db e acct pay orchard_out permitted pol lp lock oracle obs =>
+  | CPropose db e acct pay single_payment orchard_out permitted pol lp lock canon oracle obs =>
       outcome_eqb (list_eqb step_eqb) perr_eqb
-        (propose_transfer (oracle_fn oracle) FUEL db e (Some (e_target e - 1)) acct pay orchard_out permitted pol lp lock)
+        (propose_transfer (oracle_fn oracle) FUEL db e (Some (e_target e - 1)) acct pay single_payment orchard_out
+                          permitted pol lp lock canon)
         obs
   | CLock db tip refs owner expiry obs post =>
       match lock_outputs tip owner expiry refs db, obs with
@@ -121,23 +125,25 @@ Definition prop_case (c : case) : bool :=
               && forallb (fun i => negb (existsb (ref_eqb (p, i)) exclude)) ids
           end
       end
-  | CPropose db e acct pay orchard_out permitted pol lp lock oracle obs =>
+  | CPropose db e acct pay single_payment orchard_out permitted pol lp lock canon oracle obs =>
       match obs with
       | Panic => false
       | Err _ => true
       | Ok steps =>
-          match e_anchor e with
-          | None => false
-          | Some anchor =>
-              let all_refs := concat (map s_inputs steps) in
-              nodup_refs all_refs
-              && all_spendable db (fun q => SC acct q (e_target e) anchor (tip_unscanned e q anchor) pol
-                                               (Some (overridable (LFPolicy lp)))) all_refs
-              && forallb (fun x => existsb (pool_eqb (fst x)) permitted) all_refs
-              && forallb (fun s => (s_in_value s =? value_of_refs db (s_inputs s)) && (s_tin s =? 0)
-                                   && step_balanced s) steps
-              && (fold_right (fun s a => s_pay s + a) 0 steps =? pay)
-          end
+          let all_refs := concat (map s_inputs steps) in
+          nodup_refs all_refs
+          && forallb (fun x => existsb (pool_eqb (fst x)) permitted) all_refs
+          && forallb (fun s =>
+               (* spendable AT THE ANCHOR THE STEP BINDS, under the caller's policy *)
+               match s_anchor s with
+               | None => false
+               | Some a =>
+                   all_spendable db (fun q => SC acct q (e_target e) a (tip_unscanned e q a) pol
+                                                  (Some (overridable (LFPolicy lp)))) (s_inputs s)
+               end
+               && (s_in_value s =? value_of_refs db (s_inputs s)) && (s_tin s =? 0)
+               && step_balanced s) steps
+          && (fold_right (fun s a => s_pay s + a) 0 steps =? pay)
       end
   | CLock db tip refs owner expiry obs post =>
       match obs with
@@ -185,10 +191,15 @@ Definition tag_z (c : case) : Z :=
               end
           end
       end
-  | CPropose _ _ _ _ _ _ _ _ lock oracle obs =>
+  | CPropose _ e _ _ _ _ _ _ _ lock canon oracle obs =>
       if existsb (fun en => match snd en with ODust _ => true | _ => false end) oracle then 17 else
       match obs with
       | Ok [s] =>
+          if negb (option_eqb Z.eqb (s_anchor s) (e_anchor e)) then 24   (* canonical crossing kept: bucketed anchor *)
+          else if match canon with
+                  | Some ci => existsb (fun en => fst (fst en) =? c_boundary ci) oracle
+                  | None => false end then 25                            (* canonical attempt made, ordinary proposal returned *)
+          else
           match lock with Some _ => 23 | None =>
           if existsb (fun x => pool_eqb (fst x) Sapling) (s_inputs s) && existsb (fun x => pool_eqb (fst x) Orchard) (s_inputs s)
           then 12 else 11 end
